@@ -14,9 +14,30 @@ def load(pid):
 
 
 def run_check(pid, tier):
+    from .core import par
+
     env.bind()
     mod = load(pid)
-    report = mod.run(tier)
+    try:
+        report = mod.run(tier)
+        abandoned = None
+    except (par.Aborted, env.HangSkip, RuntimeError) as e:
+        # repeated hangs of the code under test: the exploration was abandoned, the hangs themselves are the verdict
+        if not result.hang_failures()[0]:
+            raise
+        abandoned = f"{type(e).__name__}: {e}"
+        level = "exploration"
+        try:
+            with open(os.path.join(env.VERIF, "MANIFEST.json")) as fh:
+                level = next(c["level_claimed"]["category"] for c in json.load(fh)["checks"] if c["property_id"] == pid)
+        except Exception:  # noqa
+            pass
+        report = result.Report(pid, level)
+        report.coverage.update({"exhaustive": False, "evaluations": 0, "exploration_abandoned": abandoned})
+    hangs, n = result.hang_failures()
+    if hangs:
+        report.add(hangs)
+        report.coverage["calls_without_result"] = n
     return result.finalize(report, tier)
 
 
@@ -30,7 +51,7 @@ def main(argv):
         with open(argv[1]) as f:
             rec = json.load(f)
         mod = load(rec["property"])
-        out = mod.replay(rec["witness"], rec.get("kind"))
+        out = result.replay_hang(rec["witness"]) if rec.get("kind") == "hang" else mod.replay(rec["witness"], rec.get("kind"))
         print(json.dumps(out, indent=1, default=str))
         if out.get("violates"):
             print(f"VIOLATION property={rec['property']} replay={os.path.abspath(argv[1])}")
